@@ -162,7 +162,7 @@ class _Gen:
         if rng.random() < c.p_sensitive and kind not in ("secure",):
             o["sensitive"] = True
         if rng.random() < c.p_validator and kind in ("string", "int", "float", "port", "bytes", "url", "any", "list", "dict"):
-            node["validator"] = rng.choice(["pass", "neg", "fault"])
+            node["validator"] = rng.choice(["pass", "neg", "negk", "fault"])
         return node
 
     def item_config(self):
@@ -218,7 +218,10 @@ class _Gen:
         if c.virtual and rng.random() < 0.4:
             k = self.key(taken, prefix)
             if k:
-                node["fields"].append({"kind": "virtual", "key": k, "o": {"value": rng.choice([1, "v", None])}})
+                vo = {"value": rng.choice([1, "v", None])}
+                if rng.random() < c.p_sensitive:
+                    vo = {"value": "virt!%s!secret#%d" % (k, len(prefix)), "sensitive": True}   # distinctive and unique
+                node["fields"].append({"kind": "virtual", "key": k, "o": vo})
             k = self.key(taken, prefix)
             if k and rng.random() < 0.5:
                 node["fields"].append({"kind": "method", "key": k, "o": {}})
@@ -318,6 +321,8 @@ def _field_validator(B, vid, tag):
             _callback_fault(B)
         if vid == "neg" and model._neg_predicate(value):
             raise ValueError("rejected by the harness validator")
+        if vid == "negk" and model._neg_predicate(value):
+            raise KeyError("rejected by the harness validator (lookup failed)")
         return value
     check.__name__ = "validator_%s" % vid
     return check
@@ -329,10 +334,13 @@ def _default_arg(B, o, tag):
     d = o["default"]
     if isinstance(d, dict) and "$call" in d:
         payload = d["$call"]
+        shared = _dec_default(payload) if d.get("$shared") else None
 
         def make():
             B.calls[tag] = B.calls.get(tag, 0) + 1
-            return _dec_default(payload)
+            # a factory may build a new value on every call, or hand out one prebuilt object (a module constant,
+            # cached settings); either way configurations must not end up sharing mutable state through it
+            return shared if shared is not None else _dec_default(payload)
         make.__name__ = "default_%s" % tag.replace(".", "_")
         return {"default": make}
     return {"default": _dec_default(d)}
@@ -410,7 +418,7 @@ def make_field(B, sd, node, tag):
         f = cc.DictField(kf, vf, **kw)
     elif k == "virtual":
         val = o.get("value")
-        f = cc.VirtualField(lambda cfg, _v=val: _v)
+        f = cc.VirtualField(lambda cfg, _v=val: _v, sensitive=bool(o.get("sensitive")))
     elif k == "method":
         f = cc.InstanceMethodField(lambda cfg, *a, **kws: ("method", len(a)))
     else:
